@@ -563,6 +563,9 @@ class ConcHarness:
                     viol("C13", "flow-control", msg)
                 else:
                     viol("C03", "h2-peer-complaint", msg)
+                    if "HPACK" in msg or "decode" in msg.lower():
+                        # the connection went on being used after its shared encoder state and the server's decoder had parted ways
+                        viol("C01", "desync", f"a connection kept in service is out of step with its server: {msg}")
         # ---- C12: open streams by the peer's books at every new stream vs the limit the client had read
         for c in topo.all_h2_conns():
             for sid, nopen, lim in c.open_at_headers:
